@@ -230,18 +230,37 @@ func c13RunDet(exe string, scheds []c13Sched, procs int) []string {
 		wg.Add(1)
 		go func() {
 			defer wg.Done()
-			pool := &workerPool{name: "c13det", timeout: 30 * time.Second, exe: exe, maxBad: 10}
-			copy(res[lo:hi], pool.runOnce(reqs[lo:hi]))
+			pool := &workerPool{name: "c13det", timeout: 5 * time.Minute, exe: exe, maxBad: 3}
+			// small batches: a tree on which schedules get stuck costs the scheduler's patience
+			// for each of them; a few are enough to report it
+			bad := 0
+			for b := lo; b < hi; b += 8 {
+				e := b + 8
+				if e > hi {
+					e = hi
+				}
+				if bad >= 3 {
+					for i := b; i < e; i++ {
+						res[i] = "skipped"
+					}
+					continue
+				}
+				for i, a := range pool.runOnce(reqs[b:e]) {
+					res[b+i] = a
+					if !strings.Contains(a, " done ") && scheds[b+i].probe == "" {
+						bad++
+					}
+				}
+			}
 		}()
 	}
 	wg.Wait()
-	// anything but a clean run is repeated once, alone, before it counts (a tree that fails
-	// everywhere is not worth more than a few repetitions: each costs the patience of the scheduler)
+	// anything but a clean run is repeated once, alone, before it counts
 	retries := 0
 	for i, r := range res {
-		if !strings.Contains(r, " done ") && scheds[i].probe == "" && retries < 8 {
+		if !strings.Contains(r, " done ") && r != "skipped" && scheds[i].probe == "" && retries < 6 {
 			retries++
-			pool := &workerPool{name: "c13det", timeout: 30 * time.Second, exe: exe}
+			pool := &workerPool{name: "c13det", timeout: 5 * time.Minute, exe: exe}
 			res[i] = pool.runOnce(reqs[i : i+1])[0]
 		}
 	}
@@ -274,7 +293,7 @@ func c13EmitDet(e *emitter, s c13Sched, ans string) {
 }
 
 func genC13(e *emitter, tier string, seed uint64) {
-	nSched, nRace, procs := 2500, 80, 6
+	nSched, nRace, procs := 800, 48, 6
 	switch tier {
 	case "thorough":
 		nSched, nRace = 60000, 1500
@@ -345,6 +364,10 @@ func genC13(e *emitter, tier string, seed uint64) {
 		res := c13RunDet(instrExe, scheds, procs)
 		fmt.Fprintf(os.Stderr, "[C13] %d schedules enforced in %.1fs\n", len(scheds), time.Since(t1).Seconds())
 		for i, s := range scheds {
+			if res[i] == "skipped" {
+				e.count("run:skipped-after-failures")
+				continue
+			}
 			if s.probe != "" {
 				e.count("probe:" + s.probe)
 				c13EmitDet(e, s, res[i])
